@@ -177,3 +177,13 @@ LEVEL_TEXT["C13"] = ("Seeded exploration of structure-aware and byte-level damag
    "a panic kills the worker and is attributed by stack, a busy loop is caught by the watchdog, a silent stall by goroutine "
    "inspection at the time limit, and Close must still end the client without leaked goroutines. Sampling of inputs and fault positions.")
 NOT_APPLICABLE.pop("C13", None)
+
+META["C09"] = {"level": "exploration",
+   "rule": "each run draws a muxer configuration (three variants x track sets x every codec x RAM/disk) and a write script, a writer paced on the simulated clock (jitter, optional stall), the moment at which the client attaches, the primary URL (multivariant or media playlist) and per-request network latency 0..2 s; the real Client reads the real Muxer through the simulated transport (Handle runs in its own goroutine per request). Non-trivial = tracks were reported; distinct = distinct signatures.",
+   "real": CLI_REAL + MUX_REAL, "stub": ["transport (simulated RoundTripper, latency from the tape)", "clock (synctest)", "access units: minimal synthetic bitstreams", "wall clock: ntp = base + media time exactly"],
+   "assumptions": CLI_ASSUME + ["a client that stops with 'not enough segments', 'next segment not found' or 'playback is too late' is an accepted outcome (C11); what it delivered before is still checked",
+                                "no codec parameter changes in this profile; PTS = DTS"]}
+LEVEL_TEXT["C09"] = ("Seeded end-to-end exploration: the real client attached to the real muxer over the simulated network and clock; "
+   "reported tracks, byte identity, order, gap-freedom (MPEG-TS, fMP4), normalised PTS/DTS and AbsoluteTime of every delivery are "
+   "compared with the harness's record of what was written. Sampling of configurations, inputs and schedules.")
+NOT_APPLICABLE.pop("C09", None)
